@@ -37,7 +37,7 @@ ASSUMPTIONS = [
 SHARDS = {"quick": 8, "thorough": 16}
 TIMEOUT = {"quick": 600, "thorough": 3600}
 MIN_CASES = {"quick": 1500, "thorough": 30000}
-REQUIRED_COUNTERS = ["requests_compared", "transport_calls_counted", "encrypted_requests", "plaintext_phase_requests", "multi_frame_requests", "json_bodies_scanned", "reconnects_to_other_address", "hard_json_refused", "concurrent_bursts"]
+REQUIRED_COUNTERS = ["requests_compared", "transport_calls_counted", "encrypted_requests", "plaintext_phase_requests", "multi_frame_requests", "json_bodies_scanned", "reconnects_to_other_address", "hard_json_refused", "concurrent_bursts", "poll_set_mutations"]
 
 HOSTS = ["10.0.0.5", "192.168.100.200", "fd00::5", "2001:db8::1:2", "fe80::1234%eth0", "fe80::1%3"]
 JSON_CT = "application/hap+json"
@@ -350,6 +350,16 @@ async def run_session(ctx, idx) -> None:
             ids = [rng.choice(all_ids) if rng.random() < 0.8 else (rng.randint(1, 3), rng.randint(14, 4000)) for _ in range(n)]
             arg = ids if rng.random() < 0.5 else set(ids)
             await s.call(f"get_characteristics({n})", p.get_characteristics(arg), expect_read(ids))
+        # the way a poller uses the API: ONE set object, mutated in place between reads - each request lists what the set
+        # holds at the time of the call
+        poll = {(1, 9), (1, 10)}
+        for k in range(ctx.pick(8, 40)):
+            await s.call(f"get_characteristics-poll({len(poll)})", p.get_characteristics(poll), expect_read(sorted(poll)))
+            if rng.random() < 0.6 or len(poll) < 2:
+                poll.add(rng.choice(all_ids))
+            else:
+                poll.discard(rng.choice(sorted(poll)))
+            ctx.count("poll_set_mutations")
         for k in range(ctx.pick(12, 80)):
             n = rng.choice([1, 1, 2, 3, 4])
             writes = []
